@@ -42,6 +42,7 @@ struct Acc { // one member's accesses to one 8-byte granule in the current epoch
     uint32_t next;
     uint16_t member;
     uint8_t rmask, wmask;
+    uint8_t lock; // 0: no lock held; 1: inside the unnamed critical section; 2: inside a lock-based atomic
     void* pc_r;
     void* pc_w;
 };
@@ -399,13 +400,17 @@ inline uint64_t mix(uint64_t x)
     return x;
 }
 
+// lock held by the running member (members run from barrier to barrier without preemption, so one global is enough):
+// two accesses made under the same lock are ordered by it and are not a race; an access under a lock and one without are
+uint8_t g_lock = 0;
+
 void logGranule(uint64_t g, uint8_t mask, bool write, void* pc)
 {
     Gran* gr   = g_map.find(g + 1);
     uint32_t a = gr->head;
     while (a != 0xFFFFFFFFu) {
         Acc& e = g_map.pool[a];
-        if (e.member == g_member) {
+        if (e.member == g_member && e.lock == g_lock) {
             if (write) {
                 if (!e.wmask)
                     e.pc_w = pc;
@@ -423,6 +428,7 @@ void logGranule(uint64_t g, uint8_t mask, bool write, void* pc)
     Acc n;
     n.next   = gr->head;
     n.member = (uint16_t)g_member;
+    n.lock   = g_lock;
     n.rmask  = write ? 0 : mask;
     n.wmask  = write ? mask : 0;
     n.pc_r   = write ? nullptr : pc;
@@ -478,6 +484,10 @@ void endEpoch(Team* t)
                 if (a == b)
                     continue;
                 Acc& y = g_map.pool[b];
+                if (y.member == x.member)
+                    continue; // the same member with and without the lock: program order
+                if (x.lock && x.lock == y.lock)
+                    continue; // both inside the same critical section / lock-based atomic: mutually exclusive
                 g_st->pair_checks++;
                 uint8_t hit = x.wmask & (y.rmask | y.wmask);
                 if (!hit)
@@ -732,19 +742,37 @@ void GOMP_taskwait(void)
 {
     unsupported("taskwait");
 }
+// unnamed critical section and lock-based atomic: modelled as two locks.  A member is never preempted between two barriers, so
+// mutual exclusion holds by construction; the order in which members pass through the section follows the epoch's permutation
+// (explored like every other order), and the race oracle excuses exactly the pairs that hold the same lock.
 void GOMP_critical_start(void)
 {
-    unsupported("critical");
+    if (g_lock)
+        unsupported("nested critical / atomic");
+    g_lock = 1;
+    if (g_st)
+        g_st->critical_sections++;
 }
 void GOMP_critical_end(void)
+{
+    g_lock = 0;
+}
+void GOMP_critical_name_start(void**)
+{
+    unsupported("named critical");
+}
+void GOMP_critical_name_end(void**)
 {
 }
 void GOMP_atomic_start(void)
 {
-    unsupported("atomic (lock based)");
+    if (g_lock)
+        unsupported("nested critical / atomic");
+    g_lock = 2;
 }
 void GOMP_atomic_end(void)
 {
+    g_lock = 0;
 }
 void GOMP_parallel_loop_dynamic(void)
 {
